@@ -51,7 +51,7 @@ Fixpoint route_v1 (w : win) (fail : bool) (k : nat) (rs : list rec) : list ev * 
       else if x then
         let (w', ok) := nack1 w in
         if negb ok then ([], Some (0 <? thr w))         (* threshold: fatal iff thr > 0 *)
-        else if df then ([], Some false)                (* DLQ write failed: plain error in v1 *)
+        else if df then ([], Some true)                 (* DLQ write failed: fatal (DLQHandlerNode.Nack wraps it) *)
         else let (es, tm) := route_v1 w' false (S k) r in (DlqOk k :: SrcAck k :: es, tm)
       else
         let (es, tm) := route_v1 (ack1 w) false (S k) r in (SrcAck k :: es, tm)
